@@ -35,7 +35,15 @@ Idle == cur.op = "idle"
 NoLine == [op |-> "none"]
 
 Rep(x, k) == [j \in 1..k |-> x]
-ExcName(ret) == CASE ret = "CD" -> CD [] ret = "TL" -> TL [] OTHER -> "ValueError"
+ExcName(ret) == CASE ret = "CD" -> CD [] ret = "TL" -> TL [] ret = "HX" -> HX [] OTHER -> "ValueError"
+
+\* Variants "hooks" / "hookspin": the scenario also ranges over subclasses overriding the documented
+\* hooks (c.dq: on_disconnect returns normally; c.ex: on_exhausted default / quiet / raising its own
+\* exception).  "hookspin" = a readall whose loop leaves on an empty read only when the limit is a
+\* maximum: with a quiet on_disconnect it never terminates on a short body (LoopBound must fail).
+HookVar == Variant \in {"hooks", "hookspin"}
+\* what on_exhausted does: "ok" = returns normally
+Exh == CASE c.ex = "quiet" -> "ok" [] c.ex = "raise" -> "HX" [] OTHER -> IF c.is_max THEN "TL" ELSE "ok"
 
 MkLine(op, n, evs, rk, rb, rx, cuts, bafter, bn, p) ==
   [op |-> op, n |-> n, ev |-> evs, rk |-> rk, rb |-> rb, rx |-> rx, cuts |-> cuts,
@@ -49,19 +57,19 @@ ExcLine(op, n, evs, ret, p) == MkLine(op, n, evs, "exc", <<>>, ExcName(ret), <<>
 RI(size, mv) ==
   LET rem == c.limit - pos IN
   IF rem <= 0
-  THEN {[ev |-> <<>>, ret |-> IF c.is_max THEN "TL" ELSE "ok", k |-> 0, dup |-> 0, derr |-> 0, grow |-> 0]}
+  THEN {[ev |-> <<>>, ret |-> Exh, k |-> 0, dup |-> 0, derr |-> 0, grow |-> 0]}
   ELSE LET m     == Min2(size, rem)
            avail == Len(c.data) - upos
            temp  == c.hasri /\ size > rem            \* the temp-buffer branch
            gots  == IF avail <= 0 THEN {0} ELSE 1..Min2(Min2(m, avail), KMax)
        IN {LET short == Variant = "f10" /\ temp /\ g > 0 /\ g < rem IN
            [ev   |-> << <<m, g>> >>,
-            ret  |-> IF g = 0 THEN (IF c.is_max THEN "ok" ELSE "CD") ELSE IF short /\ mv THEN "VE" ELSE "ok",
+            ret  |-> IF g = 0 THEN (IF c.is_max \/ c.dq THEN "ok" ELSE "CD") ELSE IF short /\ mv THEN "VE" ELSE "ok",
             k    |-> IF short /\ mv THEN 0 ELSE g,
             dup  |-> g, derr |-> 0,
             grow |-> IF short /\ ~mv THEN rem - g ELSE 0] : g \in gots}
           \cup (IF errs < ErrBudget
-                THEN {[ev |-> << <<m, 0 - 1>> >>, ret |-> "CD", k |-> 0, dup |-> 0, derr |-> 1, grow |-> 0]}
+                THEN {[ev |-> << <<m, 0 - 1>> >>, ret |-> IF c.dq THEN "ok" ELSE "CD", k |-> 0, dup |-> 0, derr |-> 1, grow |-> 0]}
                 ELSE {})
 
 Fin(ln) == /\ last' = ln /\ pst' = cst /\ cst' = OpNext(c, cst, ln) /\ hist' = IF Track THEN Append(hist, ln) ELSE hist
@@ -70,7 +78,9 @@ Cont(nc) == cur' = nc /\ UNCHANGED <<last, pst, cst, hist, nops>>
 Env(o) == pos' = pos + o.k /\ upos' = upos + o.dup /\ errs' = errs + o.derr /\ c' = c
 Handed(o) == SubSeq(c.data, upos + 1, upos + o.k)     \* the bytes the caller receives
 
-Init == /\ c \in [data : Datas, limit : Limits, is_max : Modes, hasri : RIs, wrapper : {"raw"}]
+Init == /\ c \in [data : Datas, limit : Limits, is_max : Modes, hasri : RIs, wrapper : {"raw"},
+                  dq : IF HookVar THEN BOOLEAN ELSE {FALSE},
+                  ex : IF HookVar THEN {"default", "quiet", "raise"} ELSE {"default"}]
         /\ upos = 0 /\ pos = 0 /\ errs = 0 /\ nops = 0 /\ cur = IdleRec
         /\ last = NoLine /\ pst = St0 /\ cst = St0 /\ hist = <<>>
 
@@ -92,7 +102,7 @@ Start(op, n) ==
   /\ Idle /\ nops < MaxOps
   /\ UNCHANGED <<c, upos, pos, errs>>
   /\ IF op \in {"readall", "exhaust"} /\ pos >= c.limit
-     THEN IF op = "readall" /\ c.is_max THEN Fin(ExcLine(op, n, <<>>, "TL", pos))
+     THEN IF op = "readall" /\ Exh # "ok" THEN Fin(ExcLine(op, n, <<>>, Exh, pos))
           ELSE Fin(BytesLine(op, n, <<>>, <<>>, <<>>, pos))
      ELSE Cont([op |-> op, n |-> n, acc |-> <<>>, done |-> <<>>, cuts |-> <<>>, evs |-> <<>>])
 
@@ -115,9 +125,10 @@ Step ==
                IN IF o.ret # "ok" THEN Fin(ExcLine(cur.op, cur.n, evs, o.ret, p))
                   ELSE IF o.k = 0 /\ Variant = "spin"                                         \* broken: no break
                        THEN Cont([cur EXCEPT !.cuts = IF @ = <<>> THEN <<0>> ELSE <<>>])
-                  ELSE IF o.k = 0 THEN Fin(BytesLine(cur.op, cur.n, evs, acc, <<>>, p))      \* break
+                  ELSE IF o.k = 0 /\ (Variant # "hookspin" \/ c.is_max)
+                       THEN Fin(BytesLine(cur.op, cur.n, evs, acc, <<>>, p))                  \* break
                   ELSE IF p >= c.limit
-                       THEN (IF c.is_max /\ Variant # "trunc" THEN Fin(ExcLine(cur.op, cur.n, evs, "TL", p))
+                       THEN (IF c.is_max /\ Variant # "trunc" /\ Exh # "ok" THEN Fin(ExcLine(cur.op, cur.n, evs, Exh, p))
                              ELSE Fin(BytesLine(cur.op, cur.n, evs, acc, <<>>, p)))
                   ELSE Cont([cur EXCEPT !.acc = acc, !.evs = evs])
      ELSE \E o \in RI(1, FALSE) :                                       \* IOBase.readline: read(1) loop
